@@ -134,10 +134,20 @@ struct PrecisionCase {
     pattern: Vec<u8>,
     /// Ticks (in steps) that pass between pairs.
     gap: u8,
+    /// A clock that is coarse relative to the cost of reading it: the first
+    /// `lead` reading pairs see no step at all (measure_precision then adds
+    /// delay iterations; after 10,100 pairs it is in its "delayed a lot"
+    /// regime) ...
+    #[serde(default)]
+    lead: u32,
+    /// ... except for one pair `(index, multiple)` inside the lead that spans
+    /// several steps (an inflated outlier).
+    #[serde(default)]
+    lead_outlier: Option<(u32, u8)>,
 }
 
 thread_local! {
-    static PCLOCK: RefCell<(u64, PrecisionCase, usize)> = RefCell::new((0, PrecisionCase { step: 1, f: 1, start: 0, pattern: vec![1], gap: 0 }, 0));
+    static PCLOCK: RefCell<(u64, PrecisionCase, usize)> = RefCell::new((0, PrecisionCase { step: 1, f: 1, start: 0, pattern: vec![1], gap: 0, lead: 0, lead_outlier: None }, 0));
 }
 
 fn precision_reader(is_end: bool) -> u64 {
@@ -145,7 +155,15 @@ fn precision_reader(is_end: bool) -> u64 {
         let mut c = c.borrow_mut();
         let (value, case, idx) = &mut *c;
         if is_end {
-            let m = case.pattern[*idx % case.pattern.len()] as u64;
+            let lead = case.lead as usize;
+            let m = if *idx < lead {
+                match case.lead_outlier {
+                    Some((at, m)) if at as usize == *idx => m as u64,
+                    _ => 0,
+                }
+            } else {
+                case.pattern[(*idx - lead) % case.pattern.len()] as u64
+            };
             *idx += 1;
             *value = value.wrapping_add(m * case.step);
             *value
@@ -162,8 +180,13 @@ fn check_precision(case: &PrecisionCase) -> Verdict {
     if expected == 0 || !case.pattern.contains(&1) || case.pattern.is_empty() {
         return Verdict::pass(false);
     }
+    // After a lead the first visible step must be a single one (otherwise
+    // the documented "delayed a lot" bail-out may return an inflated value).
+    if case.lead > 0 && case.pattern[0] != 1 {
+        return Verdict::pass(false);
+    }
     // Keep the counter from wrapping during the measurement.
-    let max_reads: u64 = 2 * 100 * 200;
+    let max_reads: u64 = 2 * 100 * 200 + 2 * case.lead as u64;
     let per_read = case.step.saturating_mul(4 + case.gap as u64);
     if case.start.checked_add(per_read.saturating_mul(max_reads)).is_none() {
         return Verdict::pass(false);
@@ -177,18 +200,21 @@ fn check_precision(case: &PrecisionCase) -> Verdict {
         Err(e) => return Verdict::fail("precision-panic", format!("{case:?}: panic {e}")),
     };
     vensure!(got == expected, "precision-wrong", "{case:?}: measured precision {got} ps, uniform step is {expected} ps");
-    Verdict::pass(case.pattern.contains(&0) && case.pattern.iter().any(|&m| m > 1))
+    if case.lead > 0 {
+        crate::engine::classify(format!("lead{}{}", if case.lead > 10_100 { ">10100" } else { "<=10100" }, if case.lead_outlier.is_some() { "/outlier" } else { "" }));
+    }
+    Verdict::pass((case.pattern.contains(&0) && case.pattern.iter().any(|&m| m > 1)) || case.lead > 10_100)
 }
 
 fn groups(g: &mut Groups) {
-    g.prop("tsc_floor", 400_000, 40_000_000, (edge_u64(), edge_u64(), freq()), check_floor);
+    g.prop("tsc_floor", 2_000_000, 40_000_000, || (edge_u64(), edge_u64(), freq()), check_floor);
 
     // Correlated pairs: b close to a, and differences around 2^64/10^12.
     g.prop(
         "tsc_floor_near",
-        200_000,
+        1_000_000,
         10_000_000,
-        (edge_u64(), prop_oneof![0u64..=4, 18_446_740u64..=18_446_750, edge_u64()], any::<bool>(), freq()).prop_map(|(a, d, neg, f)| {
+        || (edge_u64(), prop_oneof![0u64..=4, 18_446_740u64..=18_446_750, edge_u64()], any::<bool>(), freq()).prop_map(|(a, d, neg, f)| {
             let b = if neg { a.wrapping_sub(d) } else { a.wrapping_add(d) };
             (a, b, f)
         }),
@@ -197,17 +223,17 @@ fn groups(g: &mut Groups) {
 
     g.prop(
         "tsc_laws",
-        200_000,
+        1_000_000,
         10_000_000,
-        (edge_u64(), edge_u64(), edge_u64(), freq(), edge_u64()).prop_map(|(a, ab, bc, f, k)| Laws { a, ab, bc, f, k }),
+        || (edge_u64(), edge_u64(), edge_u64(), freq(), edge_u64()).prop_map(|(a, ab, bc, f, k)| Laws { a, ab, bc, f, k }),
         check_laws,
     );
 
     g.prop(
         "duration",
-        200_000,
+        1_000_000,
         10_000_000,
-        (
+        || (
             edge_u64(),
             prop_oneof![0u32..1_000_000_000, Just(0u32), Just(999_999_999u32), Just(1u32), (0u32..1_000_000).prop_map(|x| x * 1000)],
         ),
@@ -223,16 +249,27 @@ fn groups(g: &mut Groups) {
 
     g.prop(
         "precision",
-        3_000,
+        15_000,
         100_000,
-        (
+        || (
             prop_oneof![1u64..=1000, (0u32..40).prop_map(|k| 1u64 << k), edge_u64().prop_map(|x| (x >> 20).max(1))],
             freq(),
             edge_u64().prop_map(|x| x >> 1),
             proptest::collection::vec(prop_oneof![3 => Just(1u8), 1 => Just(0u8), 1 => 2u8..=3], 1..=50),
             0u8..=3,
+            prop_oneof![6 => Just(0u32), 2 => 10_050u32..=10_400, 1 => 1u32..=10_100, 1 => 10_101u32..=30_000],
+            proptest::option::weighted(0.4, (0u32..=10_099, 2u8..=5)),
         )
-            .prop_map(|(step, f, start, pattern, gap)| PrecisionCase { step, f, start, pattern, gap }),
+            .prop_map(|(step, f, start, mut pattern, gap, lead, outlier)| {
+                if lead > 0 {
+                    // The first visible step after the lead is a single one.
+                    if let Some(i) = pattern.iter().position(|&m| m == 1) {
+                        pattern.rotate_left(i);
+                    }
+                }
+                let lead_outlier = outlier.filter(|&(at, _)| at < lead);
+                PrecisionCase { step, f, start, pattern, gap, lead, lead_outlier }
+            }),
         check_precision,
     );
 }
